@@ -81,6 +81,9 @@ def ret1_rule(prog, rep):
                       "tuple_get -> list of stripped strings of the required length; no converter returns its argument unchanged")
     def fold_const(e):
         return fd0.try_fold(e, dmod, default=None)
+    from . import rules_types
+    rules_types.TABLES = dict((nm, vals[-1]) for nm, vals in dmod.assigns.items() if len(vals) == 1 and isinstance(vals[-1], ast.Dict)
+                              and all(isinstance(k, ast.Constant) for k in vals[-1].keys))
     for name, allowed in sorted(RETURN_TYPES.items()):
         f = dmod.functions.get(name)
         if f is None:
@@ -89,7 +92,7 @@ def ret1_rule(prog, rep):
         g = build_cfg(f)
         xr = Expander(f, g, inline=prog)
         rets = [n for n in g.nodes if n.kind == "return"]
-        rep.floor("RET-1", len(rets), 2, "returns in %s" % name)
+        rep.floor("RET-1", len(rets), 1, "returns in %s" % name)
         for rn in rets:
             r = xr.expand(rn.ast.value, rn) if rn.ast.value is not None else None
             ts = value_type(r, g, rn, f.params, fold_const, inline_call=lambda c: xr._inline_call(c, None, 0, set())) if r is not None else set(["None"])
